@@ -188,7 +188,7 @@ theorem assign_tmax (l : KLine) (v : Str) : assign l ("tmax".toList, v) = { l wi
     · simp [assign, boundOf, h1, h2, h3, h4, hb]
 
 theorem assign_rate (l : KLine) (v : Str) (hv : v ≠ []) :
-    assign l ("rate".toList, v) = { l with rate := some (replaceAll "dexp".toList "exp".toList v) } := by
+    assign l ("rate".toList, v) = { l with rate := some (fixRate v) } := by
   have h1 : (("rate".toList : Str) == "idx".toList) = false := by decide
   have h2 : (("rate".toList : Str) == "r".toList) = false := by decide
   have h3 : (("rate".toList : Str) == "p".toList) = false := by decide
@@ -202,7 +202,7 @@ theorem assign_rate (l : KLine) (v : Str) (hv : v ≠ []) :
     reactants and 4 products in any of the columns' order, empty columns for the unused ones, comma-free
     fields, no blank at either end – is decoded to exactly the index, the reactants and products in order
     and with multiplicity, the bounds (none for `NONE`/`N`/`N/A`/`NO`/empty, else the text with the Fortran
-    comparison operators and the `d` exponent removed) and the rate text with `dexp` spelled `exp`. -/
+    comparison operators and the `d` exponent removed) and the rate text with every call `dexp(…)` spelled `exp(…)`. -/
 theorem std_roundtrip (idx : Str) (re pr : List Str) (tmin tmax rate : Str)
     (hre : re.length ≤ 3) (hpr : pr.length ≤ 4)
     (hreok : ∀ x ∈ re, ',' ∉ x ∧ x ≠ []) (hprok : ∀ x ∈ pr, ',' ∉ x ∧ x ≠ [])
@@ -211,7 +211,7 @@ theorem std_roundtrip (idx : Str) (re pr : List Str) (tmin tmax rate : Str)
     (hhead : idx.head? ≠ some '#') :
     parseLine KState.init.format (encodeStd idx re pr tmin tmax rate) =
       { idx := some idx, re := re, pr := pr, tmin := boundOf tmin, tmax := boundOf tmax,
-        rate := some (replaceAll "dexp".toList "exp".toList rate) } := by
+        rate := some (fixRate rate) } := by
   have lre := C18.length_fillList re 3 hre
   have lpr := C18.length_fillList pr 4 hpr
   have fre := C18.filter_fillList re 3 (fun x hx => (hreok x hx).2)
@@ -269,6 +269,8 @@ theorem std_roundtrip (idx : Str) (re pr : List Str) (tmin tmax rate : Str)
   simp only [List.foldl_cons, List.foldl_nil, assign_idx _ idx hidx, assign_tmin, assign_tmax, assign_rate _ rate hrate, fre, fpr,
     List.nil_append, Option.orElse_none]
   cases boundOf tmin <;> cases boundOf tmax <;> rfl
+
+example : fixRate "user_dexp*dexp (x)+xdexp(y)-dexpz".toList = "user_dexp*exp (x)+xdexp(y)-dexpz".toList := by decide +kernel
 
 example : parseLine KState.init.format "7,H+,E,,H,,,,>5.5d3,NONE,3.92d-13*dexp(-Tgas)".toList =
     { idx := some "7".toList, re := ["H+".toList, "E".toList], pr := ["H".toList], tmin := some "5.5e3".toList, tmax := none,
